@@ -34,3 +34,7 @@ def run(ctx, res):
 
 def replay(ctx, res, v):
     findobs.replay_find(ctx, res, v)
+
+
+def attribute(ctx, viols, gate):
+    return findobs.attribute_find(ctx, viols, gate)
